@@ -220,6 +220,11 @@ class EvalScn:
     @staticmethod
     def compare(c, o):
         issues = []
+        ob = c.get("obs") or {}
+        if ob.get("outcome") in ("crash", "harness-crash"):
+            return [{"aspect": "panic", "kind": "impl-vs-spec", "method": c.get("mode"),
+                     "detail": "the process died while executing this case (a panic in a goroutine nobody recovers): %s | text: %s"
+                               % ((ob.get("note") or "")[-600:], (c.get("text") or "")[:400])}]
         pr = c.get("probe")
         if pr and pr.get("got") != pr.get("want"):
             issues.append({"aspect": "conc-locals", "kind": "impl-vs-spec", "method": c.get("mode"),
@@ -279,6 +284,8 @@ class EvalScn:
                     continue
                 if oc == "ok" and (res.get("flag") != m.get("flag") or res.get("val") != m.get("val")):
                     add("value", "impl returned flag=%s %s, %s flag=%s %s" % (res.get("flag"), res.get("val"), side, m.get("flag"), m.get("val")))
+                if oc == "err" and bool(res.get("flag")) != bool(m.get("flag")):
+                    add("value", "impl reports returned=%s for a failed rule, %s says %s" % (res.get("flag"), side, m.get("flag")))
                 if oc == "err" and res.get("cite") != m.get("cite"):
                     add("cite", "impl cites line %s, %s line %s" % (res.get("cite"), side, m.get("cite")))
                 if EvalScn.norm_env(res.get("env")) != EvalScn.norm_env(m.get("env")):
